@@ -1148,6 +1148,28 @@ int main(int argc, char** argv) {
                     if (!has2) d.add("dyn:total.group.missing:" + key, "saved " + num(a));
                     else { const double b = field ? st2.get(key) : st2.get_group_var(gn, key); if (!sameDoub(a, b)) d.add("dyn:total.group:" + key, "saved " + num(a) + " loaded " + num(b)); }
                 }
+            // ---- UDQ values as the loader puts them into the summary state (DUDW / DUDF are DOUB, no unit conversion)
+            for (const auto& in : sched.getUDQConfig(simStep).input()) {
+                const std::string& k = in.keyword();
+                const auto vt = in.var_type();
+                d.ctx = tag + "UDQ " + k;
+                auto one = [&](bool savedHas, double saved, bool has2, double got, const std::string& who) {
+                    ++d.ncmp;
+                    const bool savedDef = savedHas && saved != undef;
+                    if (savedDef && !has2) d.add("dyn:udq.summary.missing", who + " saved " + num(saved));
+                    else if (savedDef && !sameDoub(saved, got)) d.add("dyn:udq.summary.value", who + " saved " + num(saved) + " loaded " + num(got));
+                    else if (!savedDef && has2 && got != undef) d.add("dyn:udq.summary.value-for-undefined", who + " loaded " + num(got));
+                };
+                if (vt == UDQVarType::WELL_VAR) {
+                    for (const auto& wn : sched.wellNames(simStep)) {
+                        const bool h = X.udq.has_well_var(wn, k), h2 = st2.has_well_var(wn, k);
+                        one(h, h ? X.udq.get_well_var(wn, k) : undef, h2, h2 ? st2.get_well_var(wn, k) : undef, "well " + wn);
+                    }
+                } else if (vt == UDQVarType::FIELD_VAR || vt == UDQVarType::SCALAR) {
+                    const bool h = X.udq.has(k), h2 = st2.has(k);
+                    one(h, h ? X.udq.get(k) : undef, h2, h2 ? st2.get(k) : undef, "field");
+                }
+            }
             nDyn += d.ncmp;
             rep.count("dynamic_comparisons", d.ncmp);
             std::set<std::string> seen;
